@@ -30,9 +30,10 @@ const (
 	rkHandover   // the old listener's File() fails while the new instance takes over
 	rkPanic      // a directive's setup panics
 	rkShutdownCb // a valid reload; a shutdown callback of the replaced instance returns an error (lifecycle rig only)
+	rkMix        // a TLS site and a plain one on the same listen address: no server can be made for that address
 )
 
-var rkNames = []string{"ok", "parse", "setup", "startupcb", "restartcb", "listen", "handover", "setup-panic", "shutdowncb-error"}
+var rkNames = []string{"ok", "parse", "setup", "startupcb", "restartcb", "listen", "handover", "setup-panic", "shutdowncb-error", "tls-and-plain-on-one-listener"}
 
 type verSpec struct {
 	label string
@@ -127,8 +128,18 @@ func (r *reloadRig) configText(v int) string {
 	var b strings.Builder
 	for i, h := range ver.hosts {
 		addr, bind := r.siteAddr(h, ver)
+		tlsSite := r.tls
+		if ver.kind == rkMix && h == "b.test" {
+			// the odd one out on the address it shares with a.test
+			tlsSite = !tlsSite
+			if tlsSite {
+				addr = "https" + strings.TrimPrefix(addr, "http")
+			} else {
+				addr = "http" + strings.TrimPrefix(addr, "https")
+			}
+		}
 		fmt.Fprintf(&b, "%s {\n\tbind %s\n\tsimnet %s\n", addr, bind, ver.label)
-		if r.tls {
+		if tlsSite {
 			b.WriteString("\ttls self_signed {\n\t\tno_redirect\n\t}\n")
 		}
 		if i == 0 {
@@ -167,7 +178,7 @@ func (r *reloadRig) genVersion(v int, kind int) verSpec {
 		return ver
 	}
 	for _, h := range allHosts {
-		if h == "a.test" || (r.two && h == "c.test") || r.st.Draw(4) != 0 {
+		if h == "a.test" || (r.two && h == "c.test") || (kind == rkMix && h == "b.test") || r.st.Draw(4) != 0 {
 			ver.hosts = append(ver.hosts, h)
 		}
 	}
@@ -227,7 +238,10 @@ func runReload(c *sim.Ctl) {
 	for k := 1; k <= nops; k++ {
 		kind := rkOK
 		if st.Draw(2) == 1 {
-			kind = 1 + st.Draw(7)
+			kind = 1 + st.Draw(8)
+			if kind == 8 {
+				kind = rkMix
+			}
 		}
 		r.vers = append(r.vers, r.genVersion(k, kind))
 		r.ops = append(r.ops, &opRec{idx: k, ver: k, kind: kind, start: -1, end: -1, parkCbs: st.Draw(2) == 0, shutErr: kind == rkOK && st.Draw(5) == 0})
@@ -715,6 +729,16 @@ func (r *reloadRig) judgeIncomplete(cl *rclient, why string) {
 	}
 	conn := cl.end.Conn()
 	if conn.Accepted != nil && conn.SrvRecvAtLnClose >= 0 && conn.SrvRecvAtLnClose < total {
+		// What net/http does to such a connection, and nothing beyond it: it is dropped when its
+		// head is complete (conn.serve sees the shutdown and returns), or when it has sat there
+		// without a complete head for five seconds (Shutdown's sweep of idle connections). A
+		// connection cut earlier than that, its head still incomplete, was cut by something else.
+		if tc, closed := conn.Srv.ClosedAt(); closed && conn.Srv.RecvTotal < total && tc-conn.AcceptedAt < 5*time.Second {
+			c.Violate("C07/dropped", "cut-before-its-head-was-complete-and-before-the-idle-sweep",
+				"client c%d host=%s: accepted by %s at %s, which began shutting down at %s; the server closed the connection at %s with %d of %d request bytes received: neither a complete head nor five idle seconds (%s)",
+				cl.id, cl.host, conn.Accepted.Tag, conn.AcceptedAt, conn.LnCloseAt, tc, conn.Srv.RecvTotal, total, why)
+			return
+		}
 		// net/http: conn.serve returns without answering when the request head
 		// is completed after Shutdown began (and closes StateNew connections
 		// older than 5 s). The accepting instance began its graceful stop while
